@@ -351,11 +351,18 @@ def _tail(text, n=40):
 # ---------------------------------------------------------------------- known findings
 
 def load_known(prop):
-    p = os.path.join(VERIF, "known_findings.json")
-    if not os.path.exists(p):
-        return []
-    data = json.load(open(p))
-    return [k for k in data.get("findings", []) if k.get("property") == prop]
+    """known_findings.json plus known_findings.d/*.json (one file per property while building)."""
+    out = []
+    files = [os.path.join(VERIF, "known_findings.json")]
+    d = os.path.join(VERIF, "known_findings.d")
+    if os.path.isdir(d):
+        files += sorted(os.path.join(d, f) for f in os.listdir(d) if f.endswith(".json"))
+    for p in files:
+        if not os.path.exists(p):
+            continue
+        data = json.load(open(p))
+        out += [k for k in data.get("findings", []) if k.get("property") == prop]
+    return out
 
 
 def _match_value(pat, val):
